@@ -30,7 +30,7 @@ CFG = {
     "compare": "exact",
     "nontrivial": _nontrivial,
     "gen_timeout": 900,
-    "rule": "cases: min_ada_for_output on outputs over every address kind (base, enterprise, reward, pointer with 1..10-byte naturals, "
+    "rule": "cases (see notes/design/C07.md for the later families: entry / txsize / mintout, histories with refused adds, change-window sweeps): min_ada_for_output on outputs over every address kind (base, enterprise, reward, pointer with 1..10-byte naturals, "
             "Byron with 0..300-byte derivation attribute, arbitrary-length malformed addresses), coins at 64-bit / CBOR-width edges and "
             "next to the five candidate prices, bundles (0..30 policies, 0..160 assets, names 0..32 bytes, edge quantities), datum hash / "
             "inline datum (0..70000 bytes) / native and Plutus script references, prices {0,1,2,255..257,4310,34482,2^20,16.25M,2^32,2^40,"
